@@ -254,5 +254,56 @@ def oneTapReceive (fftK : Nat → List α → List α) (s : α) (p : Params) (ir
     | .error e => .error e
     | .ok d => equalize fftK p d ir
 
+/-! ## The (OFDM object, long-lived equaliser) pair as a state machine
+
+`OfdmOneTapEqualizer.__init__` stores a *reference* to the OFDM object
+(`self._ofdm_obj = ofdm_obj`) and nothing derived from it; `equalize_data` reads
+`fft_size`, `num_used_subcarriers` and `get_used_subcarrier_indexes()` from that
+object at every call.  The state of the pair is therefore the attribute triple
+of the one shared OFDM object; the equaliser has no state of its own. -/
+
+/-- state of one OFDM object together with an equaliser built on it -/
+structure Pair where
+  /-- attributes of the shared OFDM object (the equaliser's `_ofdm_obj` points here) -/
+  ofdm : Params
+  deriving DecidableEq, Repr
+
+/-- a freshly built `(OFDM(fft, cp, used), OfdmOneTapEqualizer(ofdm))` -/
+def freshPair (p : Params) : Pair := ⟨p⟩
+
+/-- the operations a user can interleave on the pair -/
+inductive PairOp (α : Type)
+  | setParams (fft cp : Int) (used : Option Int)      -- `ofdm.set_parameters(...)`
+  | modulate (x : List α)                             -- `ofdm.modulate(x)`
+  | demodulate (y : List α)                           -- `ofdm.demodulate(y)`
+  | equalize (data : List α) (ir : ImpulseResponse α) -- `equalizer.equalize_data(data, ir)`
+
+/-- one operation; `sc p` is `math.sqrt(_calculate_power_scale())` for the attributes `p`.
+    `set_parameters` returns nothing (modelled as `.ok []`) or raises leaving the object unchanged. -/
+def stepPair (fftK ifftK : Nat → List α → List α) (sc : Params → α) (s : Pair) :
+    PairOp α → Pair × Except PyErr (List α)
+  | .setParams f c u =>
+    match setParameters f c u with
+    | .ok p => (⟨p⟩, .ok [])
+    | .error e => (s, .error e)
+  | .modulate x => (s, .ok (modulate ifftK (sc s.ofdm) s.ofdm x))
+  | .demodulate y => (s, demodulate fftK (sc s.ofdm) s.ofdm y)
+  | .equalize data ir => (s, equalize fftK s.ofdm data ir)
+
+/-- a history of operations: final state and the outputs in order -/
+def runPair (fftK ifftK : Nat → List α → List α) (sc : Params → α) (s : Pair) :
+    List (PairOp α) → Pair × List (Except PyErr (List α))
+  | [] => (s, [])
+  | op :: ops =>
+    let r := stepPair fftK ifftK sc s op
+    let rest := runPair fftK ifftK sc r.1 ops
+    (rest.1, r.2 :: rest.2)
+
+/-- the `set_parameters` calls of a history, in order -/
+def setOps : List (PairOp α) → List (Int × Int × Option Int)
+  | [] => []
+  | .setParams f c u :: ops => (f, c, u) :: setOps ops
+  | _ :: ops => setOps ops
+
 end scalar
 end PyPhysim.C02
